@@ -47,7 +47,9 @@ Allocate(size, al) ==
                       ELSE /\ live' = live \cup {[id |-> nextid, blk |-> nb, addr |-> Base(nb) + Fence + off1, len |-> size, al |-> al]}
                            /\ top' = Base(nb) + needed /\ nextid' = nextid + 1 /\ UNCHANGED threw
   /\ UNCHANGED <<marks, restoreOk>>
-  /\ hist' = Append(hist, [op |-> "an", a |-> size, b |-> al])
+  /\ hist' = Append(hist, [op |-> "an", a |-> size, b |-> al,
+                            rb |-> IF nextid' > nextid THEN (CHOOSE x \in live' : x.id = nextid).blk ELSE -1,
+                            ro |-> IF nextid' > nextid THEN (CHOOSE x \in live' : x.id = nextid).addr - Base((CHOOSE x \in live' : x.id = nextid).blk) ELSE -1])
 
 (* memory_stack::try_allocate = fixed_memory_stack::allocate: never grows *)
 TryAllocate(size, al) ==
@@ -58,7 +60,9 @@ TryAllocate(size, al) ==
           /\ top' = top + Fence + off0 + size + Fence /\ nextid' = nextid + 1
      ELSE UNCHANGED <<live, top, nextid>>
   /\ UNCHANGED <<nused, ncached, marks, restoreOk, threw>>
-  /\ hist' = Append(hist, [op |-> "tn", a |-> size, b |-> al])
+  /\ hist' = Append(hist, [op |-> "tn", a |-> size, b |-> al,
+                            rb |-> IF nextid' > nextid THEN nused ELSE -1,
+                            ro |-> IF nextid' > nextid THEN (CHOOSE x \in live' : x.id = nextid).addr - Base(nused) ELSE -1])
 
 (* memory_stack::top *)
 Mark ==
@@ -66,7 +70,7 @@ Mark ==
   /\ marks' = Append(marks, [index |-> nused - 1, top |-> top, end |-> BlockEnd(nused),
                              wm |-> nextid - 1, cap |-> Cap, nused |-> nused])
   /\ UNCHANGED <<nused, ncached, top, live, nextid, restoreOk, threw>>
-  /\ hist' = Append(hist, [op |-> "mk", a |-> 0, b |-> 0])
+  /\ hist' = Append(hist, [op |-> "mk", a |-> 0, b |-> 0, rb |-> -1, ro |-> -1])
 
 (* memory_stack::unwind *)
 Unwind(j) ==
@@ -81,12 +85,12 @@ Unwind(j) ==
         \* C06: the state is exactly the one at the marker
         /\ restoreOk' = (restoreOk /\ nused' = m.nused /\ BlockEnd(nused') - top' = m.cap /\ BlockEnd(nused') = m.end)
   /\ UNCHANGED <<nextid, threw>>
-  /\ hist' = Append(hist, [op |-> "uw", a |-> j - 1, b |-> 0])
+  /\ hist' = Append(hist, [op |-> "uw", a |-> j - 1, b |-> 0, rb |-> -1, ro |-> -1])
 
 ShrinkToFit ==
   /\ ncached > 0 /\ ncached' = 0
   /\ UNCHANGED <<nused, top, live, marks, nextid, restoreOk, threw>>
-  /\ hist' = Append(hist, [op |-> "sh", a |-> 0, b |-> 0])
+  /\ hist' = Append(hist, [op |-> "sh", a |-> 0, b |-> 0, rb |-> -1, ro |-> -1])
 
 Next == \/ \E s \in Sizes, al \in Aligns : Allocate(s, al) \/ TryAllocate(s, al)
         \/ Mark \/ (\E j \in 1..MaxMarks : Unwind(j)) \/ ShrinkToFit
